@@ -563,15 +563,29 @@ impl Database {
         // wait for the update_watchers to release the key
         let (value, version) = {
             let mut db = self.map.write().unwrap();
+            let old_value = db.get(&key.to_string()).cloned();
             match i32::from_str_radix(
-                &db.get(&key.to_string())
+                &old_value
+                    .as_ref()
                     .unwrap_or(&Value::from("0"))
                     .to_string(),
                 10,
             ) {
                 Ok(current) => {
                     let next = (current + inc).to_string();
-                    db.insert(key.clone(), Value::from(next.clone()));
+                    let new_value = match old_value {
+                        // Keep growing the version and keep the disk addresses of an existing key
+                        Some(old) => Value {
+                            value: next.clone(),
+                            version: old.version + 1,
+                            state: old.get_update_value_sate(),
+                            value_disk_addr: old.value_disk_addr,
+                            key_disk_addr: old.key_disk_addr,
+                            opp_id: Databases::next_op_log_id(),
+                        },
+                        None => Value::from(next.clone()),
+                    };
+                    db.insert(key.clone(), new_value);
                     (next, -1)
                 }
                 _ => {
